@@ -133,4 +133,30 @@ def run_case(case):
                 events.append(judge("force-bias/batched-" + entry, r, 1e-7 * Lnorm, "%s/fb-batched-%s" % (key0, entry),
                                     n_batch=n_batch, shape=list(fbb.shape)))
                 cnt["batched"] += 1
+    # ---- rebuild on a ham_data that already carries intermediates of other trial parameters / another Hamiltonian
+    if case["rep"] <= 1 and entries:
+        from ad_afqmc import hamiltonian
+
+        entry = entries[case["rep"] % len(entries)]
+        rng2 = np.random.default_rng(case["s"] + 101)
+        t2 = trials.make(kind, norb, (na, nb), rng2, **opts)
+        h0b, h1b, cholb = trials.rand_ham(rng2, norb, case["nchol"], spin_dep=False)
+        hd_re = dict(hd)
+        hd_re.update(trials.ham_data_of(h0b, h1b, cholb))
+        try:
+            hd_re = hamiltonian.hamiltonian(norb).build_measurement_intermediates(hd_re, t2["trial"], t2["wave_data"])
+            d = _draw(rng2, F, t2, kind, norb, na, nb, entry == "r")
+            if d is not None:
+                wu, wd, phi, rel, cond = d
+                ov = np.vdot(t2["psi"], phi)
+                ref = np.array([np.vdot(t2["psi"], F.onebody(c.reshape(norb, norb)) @ phi) / ov for c in cholb])
+                if entry == "u":
+                    fb = np.asarray(t2["trial"]._calc_force_bias(jnp.array(wu), jnp.array(wd), hd_re, t2["wave_data"]))
+                else:
+                    fb = np.asarray(t2["trial"]._calc_force_bias_restricted(jnp.array(wu), hd_re, t2["wave_data"]))
+                events.append(judge("force-bias/after-rebuild-" + entry, float(np.max(np.abs(fb - ref))), 1e-9 * Lnorm * 10 * (1 + cond / 10) / rel,
+                                    "%s/fb-rebuild-%s" % (key0, entry)))
+                cnt["rebuild"] = cnt.get("rebuild", 0) + 1
+        except Exception as exc:
+            events.append(ev("force-bias/rebuild-raised", False, key="%s/fb-rebuild-exception" % key0, exc=repr(exc)[:300]))
     return {"events": events, "nontrivial": nontrivial > 0, "sample": sample, "counters": cnt}
